@@ -87,6 +87,7 @@ class Ctx:
         self.nontrivial_hashes = set()
         self.evaluations = 0
         self.samples = []
+        self.any_samples = []
         self.clause = None
         self.case = None
         self._case_flagged = False
@@ -101,6 +102,8 @@ class Ctx:
         self.clause = None
         self._case_flagged = False
         self.evaluations += 1
+        if len(self.any_samples) < 2:
+            self.any_samples.append({"sub": sub, "case": abbreviate(case), "trivial": True})
 
     def label(self, name, n=1):
         self.labels[name] += n
@@ -142,6 +145,12 @@ class Ctx:
         if not cond:
             self.fail(clause, detail() if callable(detail) else detail, **info)
 
+    def using(self, clause, what):
+        """Context manager: an exception raised while *using a value emsarray returned* (for
+        example isel() with a selector it built) is a violation of ``clause``, not a harness
+        error."""
+        return _Using(self, clause, what)
+
     def raises(self, clause, fn, what, exc_types=Exception):
         """Assert positively that ``fn()`` is rejected with an exception."""
         try:
@@ -150,6 +159,21 @@ class Ctx:
             return True
         self.fail(clause, f"{what}: expected an error, got {result!r}")
         return False
+
+
+class _Using:
+    def __init__(self, ctx, clause, what):
+        self.ctx, self.clause, self.what = ctx, clause, what
+
+    def __enter__(self):
+        self.ctx.at(self.clause)
+        return self
+
+    def __exit__(self, exc_type, exc, tb):
+        if exc is None or isinstance(exc, (Violation, HarnessError, KeyboardInterrupt, SystemExit)):
+            return False
+        self.ctx.fail(self.clause, f"{self.what}: {exc_type.__name__}: {exc}")
+        return True
 
 
 def load_findings():
@@ -273,7 +297,7 @@ def run_shard(args):
     result.update({
         "evaluations": ctx.evaluations,
         "nontrivial": sorted(ctx.nontrivial_hashes),
-        "samples": ctx.samples,
+        "samples": ctx.samples or ctx.any_samples,
         "labels": dict(ctx.labels),
         "known_hits": dict(ctx.known_hits),
         "skipped_budget": ctx.skipped_budget,
@@ -468,6 +492,7 @@ def main(prop_id, tier, replay=None, only=None):
     evidence_path = os.path.join(EVIDENCE_DIR, f"{prop_id}.json")
     with open(evidence_path, "w") as f:
         json.dump(evidence, f, indent=1, default=str)
+    evidence_problem = None
     try:
         import jsonschema
         schema_path = os.path.join(VERIF_DIR, "tools", "EVIDENCE.schema.json")
@@ -476,9 +501,7 @@ def main(prop_id, tier, replay=None, only=None):
     except ImportError:
         pass
     except Exception as exc:  # schema violation is a harness problem
-        print(f"evidence does not validate: {exc}")
-        print(f"HARNESS-ERROR property={prop_id}")
-        return 2
+        evidence_problem = str(exc)[:500]
 
     for line in known_lines:
         print(line)
@@ -497,4 +520,8 @@ def main(prop_id, tier, replay=None, only=None):
         print(f"clause {f0['clause']}: {f0['detail'][:1500]}")
         print(f"VIOLATION property={prop_id} replay={path}")
         return 1
+    if evidence_problem:
+        print(f"evidence does not validate: {evidence_problem}")
+        print(f"HARNESS-ERROR property={prop_id}")
+        return 2
     return 0
